@@ -226,7 +226,8 @@ let block_alias buf o1 l1 o2 l2 verbose =
      compare / operators: compare_window, operators_window (|x|+1 bytes);  compare(pos,n,..): compare3/5_factor;
      substr / remove_prefix / remove_suffix / copy / at: *_factor;  starts/ends_with: *_window;
      forward searches from pos: find_shift etc. with o = min(pos, sz);  backward searches: rfind_shift etc. with
-     o = sz - 8 (conditional on the occurrence lying in the window; otherwise the driver prints -99). *)
+     o = sz - 8 (conditional on the occurrence lying in the window; otherwise the driver prints -99); backward
+     searches from a small pos: rfind_prefix etc. (the first pos+|s| resp. pos+1 bytes). *)
 let zeros k = List.init k (fun _ -> N0)
 let g31 = 1 lsl 31 and g32 = 1 lsl 32
 let huge_sizes = [g31 - 1; g31; g31 + 1; g32 - 1; g32; g32 + 1; g32 + g31]
@@ -296,6 +297,10 @@ let block_huge sz s verbose =
     if allzero then call b [back (rfind h' s pos')];
     if haszero then call b [back (find_last_of h' s pos')];
     if not haszero then call b [back (find_last_not_of h' s pos')]) [-1; sz - 1; sz + 5];
+  List.iter (fun pos ->                                          (* rfind_prefix, find_last_(not_)of_prefix *)
+    call b [enc_size (rfind (zeros (pos + ls)) s (arg pos))];
+    call b [enc_size (find_last_of (zeros (pos + 1)) s (arg pos))];
+    call b [enc_size (find_last_not_of (zeros (pos + 1)) s (arg pos))]) [0; 2];
   finish b
 
 (* ---------------------------------------------------------------- enumeration *)
